@@ -27,10 +27,13 @@ let () =
   end else begin
     let ic = open_in_bin Sys.argv.(2) in
     let buf = Buffer.create (1 lsl 20) in
+    (* the verdicts are collected and written at the end: the caller reads the pipes of its
+       parallel shards one after the other, a process writing early would block on a full pipe *)
+    let outb = Buffer.create (1 lsl 20) in
     let count = ref 0 in
     let flush_chunk () =
       if Buffer.length buf > 0 then begin
-        print_string (implode (Cmds.dispatch cmd (explode (Buffer.contents buf))));
+        Stdlib.List.iter (Buffer.add_char outb) (Cmds.dispatch cmd (explode (Buffer.contents buf)));
         Buffer.clear buf; count := 0
       end in
     (try
@@ -42,5 +45,6 @@ let () =
        done
      with End_of_file -> ());
     flush_chunk ();
-    close_in ic
+    close_in ic;
+    print_string (Buffer.contents outb)
   end
